@@ -430,20 +430,30 @@ Proof.
   - apply IH. intros I. apply H. now right.
 Qed.
 
-Theorem one_line_per_event p e out :
-  pattern_write p e = Ok out ->
-  exists body, write_items p e = Ok body /\
+Lemma one_line_with rf p e out :
+  pattern_write_with rf p e = Ok out ->
+  exists body, write_items_with rf p e = Ok body /\
     ((body = [] /\ out = []) \/
      (body <> [] /\ out = body ++ [10] /\ (~ In 10 body -> newlines out = 1%nat))).
 Proof.
-  unfold pattern_write. destruct (write_items p e) as [b| |]; cbn [bind]; try discriminate.
+  unfold pattern_write_with. destruct (write_items_with rf p e) as [b| |]; cbn [bind]; try discriminate.
   intros H. inversion H; subst out; clear H. exists b. split; [reflexivity|].
   destruct b as [|c b]; [left; now split | right].
   split; [discriminate|]. split; [reflexivity|].
   intros Hn. unfold newlines. rewrite filter_app, (filter_absent _ Hn). reflexivity.
 Qed.
 
-(* ---------------- the two defects of the unchanged code ---------------- *)
+Theorem one_line_per_event p e out :
+  pattern_write p e = Ok out ->
+  exists body, write_items p e = Ok body /\
+    ((body = [] /\ out = []) \/
+     (body <> [] /\ out = body ++ [10] /\ (~ In 10 body -> newlines out = 1%nat))).
+Proof. apply one_line_with. Qed.
+
+(* ---------------- the two defects the code had until bb1b4e7 / 1da7601 ----------------
+   Both were repaired in /repo; the theorems are kept about the [_unrepaired]
+   definitions of Model/Logger.v, next to what the repaired code does on the
+   same witnesses. *)
 Definition ex_request : request :=
   {| rq_remote := bs "10.0.0.7:51234"; rq_method := bs "GET"; rq_uri := bs "/"; rq_proto := bs "HTTP/1.1";
      rq_host := bs "example.com"; rq_header := Some [] |}.
@@ -453,33 +463,36 @@ Definition ex_event (upstream : str) (off : Z) : event :=
      e_req := Some ex_request; e_resp := Some (200, 12)%Z; e_requrl := None;
      e_upaddr := upstream; e_upsvc := bs "svc"; e_upurl := None |}.
 
-(* F-C20-1: a route to "http://backend/" has UpstreamAddr = "backend" *)
+(* F-C20-1 (fixed by bb1b4e7): a route to "http://backend/" has UpstreamAddr = "backend" *)
 Theorem upstream_no_port_panics_refuted :
   exists format e, (exists p, new_logger format = Ok p) /\ e_upaddr e = bs "backend" /\
-                   log_line format e = Panic.
+                   log_line_unrepaired format e = Panic /\
+                   log_line format e = Ok (bs "10.0.0.7:51234 backend" ++ [10]).
 Proof.
   exists (bs "$remote_addr $upstream_host"), (ex_event (bs "backend") 0).
-  split; [eexists; vm_compute; reflexivity|]. split; vm_compute; reflexivity.
+  split; [eexists; vm_compute; reflexivity|]. repeat split; vm_compute; reflexivity.
 Qed.
 
-(* F-C20-2: the same instant logged by a server in UTC+3 and by one in UTC: both
-   lines carry the UTC designator, they differ by three hours *)
+(* F-C20-2 (fixed by 1da7601): the same instant logged by a server in UTC+3 and by one in
+   UTC: both lines carried the UTC designator and differed by three hours *)
 Theorem local_time_labelled_utc_refuted :
   exists format e1 e2,
     e_unix e1 = e_unix e2 /\ e_nsec e1 = e_nsec e2 /\ e_off e1 = 10800%Z /\ e_off e2 = 0%Z /\
-    log_line format e1 = Ok (bs "2026-09-21T17:13:20Z [21/Sep/2026:17:13:20 +0000]" ++ [10]) /\
-    log_line format e2 = Ok (bs "2026-09-21T14:13:20Z [21/Sep/2026:14:13:20 +0000]" ++ [10]).
+    log_line_unrepaired format e1 = Ok (bs "2026-09-21T17:13:20Z [21/Sep/2026:17:13:20 +0000]" ++ [10]) /\
+    log_line_unrepaired format e2 = Ok (bs "2026-09-21T14:13:20Z [21/Sep/2026:14:13:20 +0000]" ++ [10]) /\
+    log_line format e1 = log_line format e2 /\
+    log_line format e1 = Ok (bs "2026-09-21T14:13:20Z [21/Sep/2026:14:13:20 +0000]" ++ [10]).
 Proof.
   exists (bs "$time_rfc3339 [$time_common]"), (ex_event (bs "10.1.1.1:80") 10800), (ex_event (bs "10.1.1.1:80") 0).
   repeat split; vm_compute; reflexivity.
 Qed.
 
-(* F-C20-3: hostport keeps the brackets of an IPv6 literal that net.SplitHostPort removes *)
+(* F-C20-3 (open): hostport keeps the brackets of an IPv6 literal that net.SplitHostPort removes *)
 Theorem ipv6_brackets_kept_refuted :
   hostport (bs "[::1]:8080") = Ok (bs "[::1]", bs "8080").
 Proof. vm_compute. reflexivity. Qed.
 
-(* ---------------- hostport outside region 1 ---------------- *)
+(* ---------------- hostport never panics, whatever the address ---------------- *)
 Lemma index_byte_some s c : forall i, index_byte s c = Some i ->
   exists a b, s = a ++ c :: b /\ length a = i /\ ~ In c a.
 Proof.
@@ -504,18 +517,30 @@ Qed.
 
 Lemma hostport_nonempty s : s <> [] ->
   hostport s = match last_index_byte s 58 with
-               | None => Panic
+               | None => Ok (s, [])
                | Some n => do h <- lg_upto s n; do p <- lg_from s (n + 1); Ok (h, p)
                end.
 Proof. destruct s; [congruence | reflexivity]. Qed.
 
-Theorem hostport_on_domain s : addr_ok s = true ->
-  exists h p, hostport s = Ok (h, p) /\
-              (s <> [] -> s = h ++ [58] ++ p /\ has_colon p = false).
+Lemma has_colon_iff s : has_colon s = true <-> In 58 s.
 Proof.
-  intros H. destruct s as [|x s0] eqn:Es; [exists [], []; split; [reflexivity | congruence]|].
-  rewrite <- Es in *. assert (Hc : has_colon s = true) by (subst s; exact H). clear H.
-  rewrite hostport_nonempty by (rewrite Es; discriminate). clear Es x s0. unfold last_index_byte.
+  unfold has_colon. destruct (index_byte s 58) eqn:E.
+  - split; [intros _|reflexivity].
+    destruct (index_byte_some _ _ _ E) as (a & b & -> & _). apply in_or_app. right. now left.
+  - split; [discriminate|]. intros I. now apply index_byte_none in E.
+Qed.
+
+(* for EVERY s: no panic; with a ':' the split at the last one (the port has none);
+   without a ':' the whole string is the host and the port is empty *)
+Theorem hostport_total s :
+  exists h p, hostport s = Ok (h, p) /\
+    (has_colon s = true -> s = h ++ [58] ++ p /\ has_colon p = false) /\
+    (has_colon s = false -> h = s /\ p = []).
+Proof.
+  destruct s as [|x s0] eqn:Es.
+  { exists [], []. split; [reflexivity|]. split; [discriminate | now split]. }
+  rewrite <- Es. assert (Hne : s <> []) by (rewrite Es; discriminate). clear Es x s0.
+  rewrite (hostport_nonempty s Hne). unfold last_index_byte.
   destruct (index_byte (rev s) 58) as [i|] eqn:Ei.
   - destruct (index_byte_some _ _ _ Ei) as (a & b & Hr & Hl & Hn).
     assert (Hs : s = rev b ++ 58 :: rev a).
@@ -523,7 +548,7 @@ Proof.
     assert (Hlen : length s = (length b + 1 + length a)%nat).
     { rewrite Hs, app_length. cbn [length]. rewrite !rev_length. lia. }
     replace (length s - 1 - i)%nat with (length (rev b)) by (rewrite rev_length; lia).
-    exists (rev b), (rev a). split.
+    exists (rev b), (rev a). split; [|split].
     + unfold lg_upto, lg_from.
       replace (Nat.leb (length (rev b)) (length s)) with true
         by (symmetry; apply Nat.leb_le; rewrite rev_length; lia).
@@ -538,16 +563,20 @@ Proof.
     + intros _. split; [exact Hs|]. unfold has_colon.
       replace (index_byte (rev a) 58) with (@None nat); [reflexivity|].
       symmetry. apply index_byte_none. intros I. apply Hn. now apply in_rev.
-  - exfalso. apply index_byte_none in Ei. unfold has_colon in Hc.
-    destruct (index_byte s 58) eqn:E; [|discriminate].
-    assert (In 58 s).
-    { destruct (index_byte_some _ _ _ E) as (a & b & -> & _). apply in_or_app. right. now left. }
+    + intros Hc. exfalso. assert (In 58 s) by (rewrite Hs; apply in_or_app; right; now left).
+      apply has_colon_iff in H. congruence.
+  - exists s, []. split; [reflexivity|]. split; [|now split].
+    intros Hc. exfalso. apply has_colon_iff in Hc. apply index_byte_none in Ei.
     apply Ei. now apply -> in_rev.
 Qed.
 
-Example hostport_on_domain_nonvacuous :
-  addr_ok (bs "10.0.0.7:8080") = true /\ hostport (bs "10.0.0.7:8080") = Ok (bs "10.0.0.7", bs "8080").
-Proof. split; vm_compute; reflexivity. Qed.
+Theorem hostport_never_panics s : exists hp, hostport s = Ok hp.
+Proof. destruct (hostport_total s) as (h & p & H & _). now exists (h, p). Qed.
+
+Example hostport_examples :
+  hostport (bs "10.0.0.7:8080") = Ok (bs "10.0.0.7", bs "8080") /\
+  hostport (bs "backend") = Ok (bs "backend", []) /\ hostport_unrepaired (bs "backend") = Panic.
+Proof. repeat split; vm_compute; reflexivity. Qed.
 
 Example atoi_spec_nonvacuous :
   int64_ok (-42) = true /\ atoi (-42) 4 = Ok (bs "-0042") /\ is_dec 4 (-42) (bs "-0042") = true.
@@ -615,4 +644,246 @@ Proof.
       destruct y as [|p]; [discriminate|]; do 6 (destruct p; try discriminate); congruence].
     intros Ha Hb. f_equal. eapply canon_digits_unique; eassumption.
   - apply canon_digits_unique.
+Qed.
+
+(* ================= Log never panics; the time fields are the UTC rendering ================= *)
+(* the calendar step on one 400-year era: all 146097 days, by computation *)
+Definition doe_ok (k : N) : bool :=
+  let '(y, m, d) := civil_of_doe (Z.of_N k) in
+  ((0 <=? y) && (y <=? 400) && (1 <=? m) && (m <=? 12) && (1 <=? d) && (d <=? 31))%Z.
+Lemma doe_all : forallb doe_ok (nrange (N.to_nat 146097) 0) = true.
+Proof. vm_compute. reflexivity. Qed.
+
+Lemma civil_of_doe_bounds doe : (0 <= doe < 146097)%Z ->
+  let '(y, m, d) := civil_of_doe doe in
+  (0 <= y <= 400 /\ 1 <= m <= 12 /\ 1 <= d <= 31)%Z.
+Proof.
+  intros H. pose proof doe_all as A. rewrite forallb_forall in A.
+  specialize (A (Z.to_N doe) (in_nrange (N.to_nat 146097) 0 (Z.to_N doe) ltac:(lia))).
+  unfold doe_ok in A. rewrite Z2N.id in A by lia.
+  destruct (civil_of_doe doe) as [[y m] d].
+  repeat (apply andb_true_iff in A as [A ?]).
+  repeat match goal with H : (_ <=? _)%Z = true |- _ => apply Z.leb_le in H end. lia.
+Qed.
+
+Definition civil_sane (c : civil) : Prop :=
+  (-100000 <= c_year c <= 100000 /\ 1 <= c_month c <= 12 /\ 1 <= c_day c <= 31 /\
+   0 <= c_hour c <= 23 /\ 0 <= c_min c <= 59 /\ 0 <= c_sec c <= 59)%Z.
+
+Lemma civil_of_sane secs : (-9000000000 <= secs <= 9000000000)%Z -> civil_sane (civil_of secs).
+Proof.
+  intros H. unfold civil_of, civil_of_days.
+  set (days := (secs / 86400)%Z).
+  assert (Hd : (-104167 <= days <= 104167)%Z) by (unfold days; Z.div_mod_to_equations; lia).
+  pose proof (civil_of_doe_bounds ((days + 719468) mod 146097)
+                (Z.mod_pos_bound _ 146097 ltac:(lia))) as B.
+  destruct (civil_of_doe ((days + 719468) mod 146097)) as [[y m] d].
+  unfold civil_sane. cbn [c_year c_month c_day c_hour c_min c_sec].
+  assert (0 <= secs mod 86400 < 86400)%Z by (apply Z.mod_pos_bound; lia).
+  assert (0 <= (days + 719468) / 146097 <= 10)%Z by (Z.div_mod_to_equations; lia).
+  clearbody days. Z.div_mod_to_equations. lia.
+Qed.
+
+Lemma int64_small z : (-1000000000000000000 <= z <= 1000000000000000000)%Z -> int64_ok z = true.
+Proof. intros H. apply int64_ok_iff. rewrite two63. lia. Qed.
+
+Lemma atoi_ok i pad : int64_ok i = true -> (pad <= 127)%Z -> exists s, atoi i pad = Ok s.
+Proof. apply atoi_never_panics. Qed.
+
+Lemma cat_ok l : Forall (fun x => exists s, x = Ok s) l -> exists s, cat l = Ok s.
+Proof.
+  induction 1 as [|x l [a ->] _ [b IH]]; [now exists []|].
+  cbn [cat bind]. rewrite IH. cbn [bind]. now eexists.
+Qed.
+
+Lemma month_name_ok m : (1 <= m <= 12)%Z -> exists s, month_name m = Ok s.
+Proof.
+  intros H.
+  assert (E : (m = 1 \/ m = 2 \/ m = 3 \/ m = 4 \/ m = 5 \/ m = 6 \/ m = 7 \/ m = 8 \/ m = 9
+               \/ m = 10 \/ m = 11 \/ m = 12)%Z) by lia.
+  repeat (destruct E as [->|E]; [eexists; reflexivity|]). subst. eexists; reflexivity.
+Qed.
+
+Lemma quot_small d k : (0 < k)%Z -> (Z.abs (Z.quot d k) <= Z.abs d)%Z.
+Proof.
+  intros Hk. rewrite <- (Z.abs_eq k) at 1 by lia. rewrite <- Z.quot_abs by lia.
+  rewrite Z.quot_div_nonneg by lia.
+  apply Z.div_le_upper_bound; [lia|]. pose proof (Z.abs_nonneg d). nia.
+Qed.
+
+Lemma int64_quot d k : int64_ok d = true -> (0 < k)%Z -> int64_ok (Z.quot d k) = true.
+Proof.
+  intros H Hk. apply int64_ok_iff in H. apply int64_ok_iff. pose proof (quot_small d k Hk). lia.
+Qed.
+
+Lemma int64_rem_quot d k j : (0 < k <= 1000000000)%Z -> (0 < j)%Z ->
+  int64_ok (Z.quot (Z.rem d k) j) = true.
+Proof.
+  intros Hk Hj. apply int64_ok_iff. rewrite two63.
+  pose proof (quot_small (Z.rem d k) j Hj).
+  assert (Z.abs (Z.rem d k) < Z.abs k)%Z by (apply Z.rem_bound_abs; lia). lia.
+Qed.
+
+Ltac ok_list :=
+  repeat first [apply Forall_nil | apply Forall_cons];
+  try (eexists; reflexivity).
+
+Theorem render_field_ok f e : event_ok e = true -> exists s, render_field f e = Ok s.
+Proof.
+  unfold event_ok. intros H.
+  repeat (apply andb_true_iff in H as [H ?]).
+  destruct (e_resp e) as [[st cl]|] eqn:Er; [|discriminate].
+  match goal with X : _ && _ = true |- _ => apply andb_true_iff in X as [Hst Hcl] end.
+  repeat match goal with
+         | X : (_ <=? _)%Z = true |- _ => apply Z.leb_le in X
+         | X : (_ <? _)%Z = true |- _ => apply Z.ltb_lt in X
+         end.
+  assert (Hdur : int64_ok (e_dur e) = true).
+  { unfold int64_ok. apply andb_true_iff. split; [apply Z.ltb_lt | apply Z.leb_le]; assumption. }
+  pose proof (civil_of_sane (e_unix e) ltac:(lia)) as (Hy & Hm & Hd & Hh & Hmi & Hs).
+  assert (Hnano : e_unixnano e = (e_unix e * 1000000000 + e_nsec e)%Z).
+  { unfold e_unixnano. apply wrap64_id. rewrite two63. lia. }
+  assert (Hn64 : int64_ok (e_unixnano e) = true) by (rewrite Hnano; apply int64_ok_iff; rewrite two63; lia).
+  assert (A : forall z pad, (-100000 <= z <= 1000000000)%Z -> (pad <= 127)%Z -> exists s, atoi z pad = Ok s).
+  { intros z pad Hz Hp. apply atoi_ok; [apply int64_small; lia | exact Hp]. }
+  assert (Tm : forall l, Forall (fun x => exists s, x = Ok s) l ->
+               Forall (fun x => exists s, x = Ok s) (rfc3339_prefix (e_civil e) ++ l)).
+  { intros l Hl. unfold rfc3339_prefix, e_civil. cbn [app]. ok_list; try (apply A; lia). exact Hl. }
+  destruct f; unfold render_field, render_field_with, with_req, with_url, with_resp, resp_time, lit;
+    try rewrite Er;
+    try (destruct (e_req e) as [r|]; [|eexists; reflexivity]);
+    try (eexists; reflexivity).
+  - destruct (hostport_never_panics (rq_remote r)) as [[h p] ->]. eexists; reflexivity.
+  - destruct (hostport_never_panics (rq_remote r)) as [[h p] ->]. eexists; reflexivity.
+  - destruct (e_requrl e); eexists; reflexivity.
+  - destruct (e_requrl e); eexists; reflexivity.
+  - destruct (e_requrl e); eexists; reflexivity.
+  - cbn [snd]. apply atoi_ok; [exact Hcl | lia].
+  - cbn [fst]. apply atoi_ok; [exact Hst | lia].
+  - apply cat_ok. ok_list; apply atoi_ok; try lia; [now apply int64_quot | apply int64_rem_quot; lia].
+  - apply cat_ok. ok_list; apply atoi_ok; try lia; [now apply int64_quot | apply int64_rem_quot; lia].
+  - apply cat_ok. ok_list; apply atoi_ok; try lia; [now apply int64_quot | apply int64_rem_quot; lia].
+  - apply atoi_ok; [now apply int64_quot | lia].
+  - apply atoi_ok; [now apply int64_quot | lia].
+  - apply atoi_ok; [exact Hn64 | lia].
+  - apply cat_ok. unfold e_civil. ok_list; try (apply A; lia). apply month_name_ok; lia.
+  - apply cat_ok, Tm. ok_list.
+  - apply cat_ok, Tm. ok_list. apply atoi_ok; [apply int64_quot; [apply int64_small|]; lia | lia].
+  - apply cat_ok, Tm. ok_list. apply atoi_ok; [apply int64_quot; [apply int64_small|]; lia | lia].
+  - apply cat_ok, Tm. ok_list. apply A; lia.
+  - destruct (hostport_never_panics (e_upaddr e)) as [[h p] ->]. eexists; reflexivity.
+  - destruct (hostport_never_panics (e_upaddr e)) as [[h p] ->]. eexists; reflexivity.
+  - destruct (e_upurl e); eexists; reflexivity.
+  - destruct (e_upurl e); eexists; reflexivity.
+  - destruct (e_upurl e); eexists; reflexivity.
+Qed.
+
+Lemma write_items_ok p e : event_ok e = true -> exists b, write_items p e = Ok b.
+Proof.
+  intros H. induction p as [|it p [b IH]]; [now exists []|].
+  unfold write_items in *. cbn [write_items_with].
+  assert (exists a, render_item_with render_field it e = Ok a) as [a Ha].
+  { destruct it as [s|name|f]; cbn [render_item_with].
+    - now eexists.
+    - destruct (e_req e) as [r|]; [destruct (rq_header r)|]; now eexists.
+    - apply render_field_ok, H. }
+  rewrite Ha, IH. cbn [bind]. now eexists.
+Qed.
+
+(* Logger.Log never panics: whatever the addresses, the zone, the headers, the format *)
+Theorem log_never_panics p e : event_ok e = true -> exists out, pattern_write p e = Ok out.
+Proof.
+  intros H. destruct (write_items_ok p e H) as [b Hb].
+  unfold pattern_write, pattern_write_with. unfold write_items in Hb. rewrite Hb. cbn [bind]. now eexists.
+Qed.
+
+Theorem log_line_never_panics format e : event_ok e = true ->
+  (exists out, log_line format e = Ok out) \/ log_line format e = Err 1 \/ log_line format e = Err 2.
+Proof.
+  intros H. unfold log_line, log_line_with.
+  destruct (new_logger_total format) as [(p & Hp & _)|[Hp|Hp]]; rewrite Hp; cbn [bind]; auto.
+  left. apply (log_never_panics p e H).
+Qed.
+
+Example log_never_panics_nonvacuous :
+  event_ok (ex_event (bs "backend") 10800) = true /\
+  log_line (bs "$upstream_host:$upstream_port [$time_common]") (ex_event (bs "backend") 10800)
+  = Ok (bs "backend: [21/Sep/2026:14:13:20 +0000]" ++ [10]).
+Proof. split; vm_compute; reflexivity. Qed.
+
+(* no field depends on the zone of the Time value: the same instant gives the same line *)
+Theorem render_zone_independent f e off : render_field f (in_zone e off) = render_field f e.
+Proof. destruct f; reflexivity. Qed.
+
+Theorem log_zone_independent format e off : log_line format (in_zone e off) = log_line format e.
+Proof.
+  unfold log_line, log_line_with. destruct (new_logger format) as [p| |]; cbn [bind]; try reflexivity.
+  unfold pattern_write_with.
+  assert (E : write_items_with render_field p (in_zone e off) = write_items_with render_field p e).
+  { induction p as [|it p IH]; [reflexivity|]. cbn [write_items_with]. rewrite IH.
+    destruct it; cbn [render_item_with]; try reflexivity; now rewrite render_zone_independent. }
+  now rewrite E.
+Qed.
+
+(* the civil time fields ARE the UTC rendering: the declarative decimal rendering of the
+   calendar fields of the instant (unix seconds, no offset), in the layout of
+   time.Format("2006-01-02T15:04:05Z07:00") / ("02/Jan/2006:15:04:05 -0700") in UTC *)
+Lemma atoi_dec z pad : (-100000 <= z <= 1000000000)%Z -> (pad <= 127)%Z ->
+  exists s, atoi z pad = Ok s /\ is_dec (Z.to_nat pad) z s = true.
+Proof. intros Hz Hp. apply atoi_spec; [apply int64_small; lia | exact Hp]. Qed.
+
+Theorem time_rfc3339_is_utc e : event_ok e = true ->
+  let c := civil_of (e_unix e) in
+  exists Y M D h m s,
+    is_dec 4 (c_year c) Y = true /\ is_dec 2 (c_month c) M = true /\ is_dec 2 (c_day c) D = true /\
+    is_dec 2 (c_hour c) h = true /\ is_dec 2 (c_min c) m = true /\ is_dec 2 (c_sec c) s = true /\
+    render_field FTimeRfc e =
+      Ok (Y ++ [45] ++ M ++ [45] ++ D ++ [84] ++ h ++ [58] ++ m ++ [58] ++ s ++ [90]).
+Proof.
+  intros H c. unfold event_ok in H.
+  repeat (apply andb_true_iff in H as [H ?]).
+  repeat match goal with
+         | X : (_ <=? _)%Z = true |- _ => apply Z.leb_le in X
+         end.
+  pose proof (civil_of_sane (e_unix e) ltac:(lia)) as (Hy & Hm & Hd & Hh & Hmi & Hs). fold c in Hy, Hm, Hd, Hh, Hmi, Hs.
+  destruct (atoi_dec (c_year c) 4 ltac:(lia) ltac:(lia)) as (Y & EY & SY).
+  destruct (atoi_dec (c_month c) 2 ltac:(lia) ltac:(lia)) as (M & EM & SM).
+  destruct (atoi_dec (c_day c) 2 ltac:(lia) ltac:(lia)) as (D & ED & SD).
+  destruct (atoi_dec (c_hour c) 2 ltac:(lia) ltac:(lia)) as (h & Eh & Sh).
+  destruct (atoi_dec (c_min c) 2 ltac:(lia) ltac:(lia)) as (m & Em & Sm).
+  destruct (atoi_dec (c_sec c) 2 ltac:(lia) ltac:(lia)) as (s & Es & Ss).
+  exists Y, M, D, h, m, s. repeat (split; [assumption|]).
+  unfold render_field, render_field_with, rfc3339_prefix, e_civil, lit. fold c.
+  cbn [app cat]. rewrite EY, EM, ED, Eh, Em, Es. cbn [bind app].
+  rewrite ?app_nil_r, <- ?app_assoc. reflexivity.
+Qed.
+
+Theorem time_common_is_utc e : event_ok e = true ->
+  let c := civil_of (e_unix e) in
+  exists Y Mn D h m s,
+    is_dec 4 (c_year c) Y = true /\ nth_error short_month_names (Z.to_nat (c_month c)) = Some Mn /\
+    (1 <= c_month c <= 12)%Z /\ is_dec 2 (c_day c) D = true /\
+    is_dec 2 (c_hour c) h = true /\ is_dec 2 (c_min c) m = true /\ is_dec 2 (c_sec c) s = true /\
+    render_field FTimeCommon e =
+      Ok (D ++ [47] ++ Mn ++ [47] ++ Y ++ [58] ++ h ++ [58] ++ m ++ [58] ++ s ++ [32;43;48;48;48;48]).
+Proof.
+  intros H c. unfold event_ok in H.
+  repeat (apply andb_true_iff in H as [H ?]).
+  repeat match goal with
+         | X : (_ <=? _)%Z = true |- _ => apply Z.leb_le in X
+         end.
+  pose proof (civil_of_sane (e_unix e) ltac:(lia)) as (Hy & Hm & Hd & Hh & Hmi & Hs). fold c in Hy, Hm, Hd, Hh, Hmi, Hs.
+  destruct (atoi_dec (c_year c) 4 ltac:(lia) ltac:(lia)) as (Y & EY & SY).
+  destruct (atoi_dec (c_day c) 2 ltac:(lia) ltac:(lia)) as (D & ED & SD).
+  destruct (atoi_dec (c_hour c) 2 ltac:(lia) ltac:(lia)) as (h & Eh & Sh).
+  destruct (atoi_dec (c_min c) 2 ltac:(lia) ltac:(lia)) as (m & Em & Sm).
+  destruct (atoi_dec (c_sec c) 2 ltac:(lia) ltac:(lia)) as (s & Es & Ss).
+  destruct (month_name_ok (c_month c) Hm) as (Mn & EMn).
+  assert (HMn : nth_error short_month_names (Z.to_nat (c_month c)) = Some Mn).
+  { unfold month_name in EMn. destruct (c_month c <? 0)%Z; [discriminate|].
+    destruct (nth_error short_month_names (Z.to_nat (c_month c))); congruence. }
+  exists Y, Mn, D, h, m, s. repeat (split; [assumption|]).
+  unfold render_field, render_field_with, e_civil, lit. fold c.
+  cbn [cat]. rewrite EY, ED, Eh, Em, Es, EMn. cbn [bind app].
+  rewrite ?app_nil_r, <- ?app_assoc. reflexivity.
 Qed.
